@@ -41,6 +41,12 @@ let () =
        let devs = List.init ndev (fun i -> mk_dev w64 (zi ((src + i) land 255)) (name i) (lst "tx" i)) in
        let rcfg = { c_only_known = (get "ok" "0" = "1"); c_iso_handler = geto "iso"; c_prodinfo = def_prodinfo; c_confinfo = (if get "noconf" "0" = "1" then [] else def_confinfo); c_hb_on = hb;
                     c_inst1 = []; c_inst2 = []; c_manuf = (if get "noconf" "0" = "1" then [] else str_bytes "NMEA2000 library, https://github.com/ttlappalainen/NMEA2000"); c_inst_changed = false } in
+       (* conf=<hex inst1>,<hex inst2>,<hex manufacturer>: the application called SetConfigurationInformation (- = empty string) *)
+       let rcfg = match (try Some (List.assoc "conf" kv) with Not_found -> None) with
+         | Some c -> (match String.split_on_char ',' c with
+             | [a; b; m] -> set_configuration_information rcfg (unhex m) (unhex a) (unhex b)
+             | _ -> rcfg)
+         | None -> rcfg in
        let start = if cold then t0 else Z.sub t0 (zi 1000) in
        let r0 = cold_node w64 (zi mode) start (zi (q * ndev)) (zi nsl) pc devs (List.init ndev (fun i -> lst "rx" i)) rcfg in
        let r0 = if cold then r0 else prelude gf_lib r0 hb t0 in
